@@ -24,23 +24,28 @@ class SysBase:
     classes = {}
     assumptions = []
     _offered = {}
+    _sole = {}
 
-    def mk(self, seed, pl, flens, peers, kind, offered):
+    def mk(self, seed, pl, flens, peers, kind, offered, sole=None):
         line = "sys %d %d %s ; %s" % (seed, pl, ",".join(map(str, flens)), " ; ".join("peer %s %s" % (b, beh) for b, beh in peers))
         c = Case(line, kind, {"piece_length": pl, "files": flens, "peers": ["%s %s" % p for p in peers], "offered": offered})
         self._offered[line] = offered
+        self._sole[line] = sole
         return c
 
     def coq_case(self, c, out):
         offered = "true" if self._offered[c.line] else "false"
+        sole = self._sole.get(c.line)
+        sole = "None" if sole is None else "(Some %d)" % sole
         out = out.strip()
         if out in ("MANAGERPANIC", "BADTORRENT"):
-            return "CSys %s None" % offered
+            return "CSys %s %s [] None" % (offered, sole)
         f = dict(x.split("=", 1) for x in out.split())
         ex = {"SAME": "(Some true)", "DIFF": "(Some false)", "-": "None"}[f["extracted"]]
         b = lambda x: "true" if x else "false"
-        return "CSys %s (Some (mksobs %s %s %s %s %s %s %s %s %s %s))" % (
-            offered, b(f["allhave"] == "1"), ex, b("extractor" in f["spawned"]), b(f["mgr"] != "-"), f["taskpanics"],
+        have = "[%s]" % ";".join("true" if x == "H" else "false" for x in f["st"].split(","))
+        return "CSys %s %s %s (Some (mksobs %s %s %s %s %s %s %s %s %s %s))" % (
+            offered, sole, have, b(f["allhave"] == "1"), ex, b("extractor" in f["spawned"]), b(f["mgr"] != "-"), f["taskpanics"],
             f["files"], f["badfiles"], f["havenofile"], f["adverts"], f["earlyadverts"])
 
     def model_term(self, c):
